@@ -52,3 +52,9 @@ Qed.
 Theorem C12_source_pair_file_format :
   src_pair_format = expected_pair_format /\ src_pair_dtype = expected_pair_dtype /\ src_pair_delim = expected_pair_delim.
 Proof. exact tie_file_format. Qed.
+
+(* read_pairs hands every file to the record reader except the empty one (written by a match
+   that found no pair), for which it returns the empty table. *)
+Theorem C12_source_only_empty_file_bypasses_reader : forall size, 0 <= size ->
+  (src_read_pairs_shortcut size = true <-> size = 0).
+Proof. exact tie_empty_file. Qed.
